@@ -118,6 +118,22 @@ func Open(prop string) *Session {
 	return s
 }
 
+// MarkCurrent records the case that is about to run in the result directory. If the process is killed by a panic in a
+// goroutine the harness cannot guard (the engine's request workers), the driver takes the case from there for the replay file.
+func (s *Session) MarkCurrent(c any) {
+	if s.OutDir == "" {
+		return
+	}
+	fn := filepath.Join(s.OutDir, fmt.Sprintf("current-%s-%d.json", s.Phase, s.Shard))
+	if c == nil {
+		os.Remove(fn)
+		return
+	}
+	if b, err := json.Marshal(c); err == nil {
+		os.WriteFile(fn, b, 0o644)
+	}
+}
+
 func (s *Session) Thorough() bool { return s.Tier == "thorough" }
 
 // Pick returns q in the quick tier and t in the thorough tier.
